@@ -37,12 +37,21 @@ int main(int argc, char **argv) {
         const std::string &op = t[0];
         if (op == "R") { name = t[1]; cap = num(t[2]); R.reset(new Rx(name, cap)); Ev e("Reset"); e.str("name", name.rfind("cx:", 0) == 0 ? "custom" : name.c_str()).ints("cx", ctx_bytes(name)).i("cap", cap); e.end(); }
         else if (op == "Feed") {
+            // bytes that are none of the six context bytes and for which the receiver reports status 0 with intact guards are merged into one
+            // RecvRun event (frames of tens of kilobytes are then judged in linear time); every other byte is an event of its own
+            auto cb = ctx_bytes(name); auto is_ctx = [&](unsigned char c) { for (auto x : cb) if ((unsigned char)x == c) return true; return false; };
+            std::vector<unsigned char> run; int run_size = 0, run_max = 0;
+            auto guards_ok = [&]() { for (int j = 0; j < G; ++j) if (R->blk[j] != 0xA5 || R->blk[G + cap + j] != 0xA5) return false; return true; };
+            auto flush_run = [&]() { if (run.empty()) return; Ev e("RecvRun"); e.bytes("cs", run.data(), run.size()).i("size", run_size).i("maxsize", run_max).bytes("gl", R->blk, G).bytes("gr", R->blk + G + cap, G); e.end(); run.clear(); run_max = 0; };
             for (unsigned char c : blist(t[1])) {
                 int st = R->feed(c); int sz = R->size();
+                if (st == 0 && !is_ctx(c) && guards_ok()) { run.push_back(c); run_size = sz; if (sz > run_max) run_max = sz; continue; }
+                flush_run();
                 Ev e("Recv"); e.i("c", c).i("st", st).i("size", sz);
                 if (st == 1) e.bytes("out", R->data(), sz < 0 ? 0 : (sz > cap ? cap : sz)); else e.bytes("out", R->data(), 0);
                 e.bytes("gl", R->blk, G).bytes("gr", R->blk + G + cap, G); e.end();
             }
+            flush_run();
         }
         else if (op == "Enc") {          // Enc <variant> <parts>   (encode with name's codec, then decode with a roomy receiver)
             const std::string &variant = t[1]; auto parts = parts_of(t[2]);
